@@ -351,7 +351,7 @@ class NodeUpdate(CoreSummaries, Contract):
                    note='own ref-count effect == held(post) - held(pre)'),
             Clause('C16.no_over_release_on_downstream_failure', ['C05', 'C16'], fn=self.no_over_release_clause(),
                    when='raise:DownstreamError', kind='no_over_release', replay=rp),
-            Clause('C01.reentrancy', ['C01'], fn=self.reentrancy_clause(), when='return', kind='reentrancy', replay=rp,
+            Clause('C01.reentrancy', ['C01', 'C05'], fn=self.reentrancy_clause(), when='return', kind='reentrancy', replay=rp,
                    note='state is final before every emission'),
         ]
         return cl
